@@ -409,6 +409,10 @@ class List(list, base.Symbolic, pg_typing.CustomTyping):
     if isinstance(value, Insertion):
       should_insert = True
       value = value.value
+      if isinstance(value, base.Symbolic) and value.sym_parent is self:
+        # An insertion never replaces: an item of this list that is inserted
+        # again is a second placement, thus it is stored as a copy.
+        value = value.clone()
 
     old_value = pg_typing.MISSING_VALUE
     # Replace an existing value.
